@@ -167,4 +167,6 @@ func TestC12X(t *testing.T) {
 			}
 		}
 	}
+	// ---------- custom wasm messages with payloads that have an effect on this state ----------
+	c12xWasmCases(t, a, x, tr, len(views)*nmsgs*nsig*histMax, only)
 }
